@@ -272,6 +272,9 @@ def wrap_container(kind, td):
             base.lock_()
             parent.lock_()
         return parent._get_sub_tensordict(0)
+    if kind == "params":
+        from tensordict import TensorDictParams
+        return TensorDictParams(td.unlock_() if td.is_locked else td, no_convert=True)
     raise ValueError(kind)
 
 
@@ -685,7 +688,7 @@ def nested_dict(leaves, order):
     return d
 
 
-def run_compare_case(ctx, name, kind):
+def run_compare_case(ctx, name, kind, container=None, site="compare"):
     run, rng = ctx.run, ctx.rng
     ref = L.ref_op(name)
     batch, s_order, s_leaves = gen_self(ctx, kind)
@@ -710,8 +713,8 @@ def run_compare_case(ctx, name, kind):
     case = {"op": name, "batch": list(batch), "self": [".".join(p) for p in s_dfs], "other": om,
             "other_keys": [".".join(p) for p in o_dfs], "other_shape": list(tensor.shape) if tensor is not None else None, "locked": lock_s}
     nontrivial = (len(o_dfs) >= 2 and [p for p in o_dfs if p in s_leaves] != [p for p in s_dfs if p in o_leaves]) or (tensor is not None and tensor.ndim > 0)
-    run.case(("compare", name, om, tuple(s_dfs), tuple(o_dfs), tuple(batch), str(case["other_shape"])), nontrivial=nontrivial)
-    run.count("compare.other", om)
+    run.case((site, name, om, tuple(s_dfs), tuple(o_dfs), tuple(batch), str(case["other_shape"])), nontrivial=nontrivial)
+    run.count(site + ".other", om)
     ans = ctx.drv.ask(sx("c09.cmp", L.paths_sx(s_dfs), o_sx))
     env = {("l", 0): s_leaves, ("l", 1): o_leaves, ("sc", 1): other, "d": None}
     exp_bs, per_key, model = list(batch), None, None
@@ -728,6 +731,10 @@ def run_compare_case(ctx, name, kind):
             model = canon_result("err", err=m[1]) if m[0] == "err" else canon_result("ok", m[1], exp_bs)
         except Exception as e:  # noqa: BLE001
             model = ["ref-undefined", err_class(e)]
+    if container is not None:
+        self_td = wrap_container(container, self_td)
+        case["container"] = container
+        run.count(site + ".container", container)
     r = L.impl_call(lambda: getattr(self_td, name)(other))
     if r[0] == "err":
         impl = ["err", r[1]]
@@ -736,7 +743,7 @@ def run_compare_case(ctx, name, kind):
     else:
         impl = canon_result("ok", leaf_dict(r[1]), r[1].batch_size)
     if model[0] != "ref-undefined":
-        run.corr("compare", case, impl, model)
+        run.corr(site, case, impl, model)
     exp = None
     try:
         if o_leaves or om.startswith(("td_", "dict_")):
@@ -753,17 +760,17 @@ def run_compare_case(ctx, name, kind):
         exp = None
     fp = f"{name}:{om}"
     if exp is None:
-        run.count("compare.oracle_skipped", om)
+        run.count(site + ".oracle_skipped", om)
     elif exp[0] == "raise":
-        run.oracle_ok("compare") if impl[0] == "err" else run.oracle_fail("compare", case, "key sets differ but the comparison returned a result", fp + ":no-raise")
+        run.oracle_ok(site) if impl[0] == "err" else run.oracle_fail(site, case, "key sets differ but the comparison returned a result", fp + ":no-raise")
     else:
         want = canon_result("ok", exp[1], exp[2])
         if impl[0] == "err":
-            run.oracle_fail("compare", case, f"raised {r[2]} where torch gives a value for every key", fp + f":raises:{impl[1]}")
+            run.oracle_fail(site, case, f"raised {r[2]} where torch gives a value for every key", fp + f":raises:{impl[1]}")
         elif impl != want:
-            run.oracle_fail("compare", case, f"differs from the per-key torch comparison: got {str(impl)[:160]} expected {str(want)[:160]}", fp + ":values")
+            run.oracle_fail(site, case, f"differs from the per-key torch comparison: got {str(impl)[:160]} expected {str(want)[:160]}", fp + ":values")
         else:
-            run.oracle_ok("compare")
+            run.oracle_ok(site)
 
 
 def stream_compare(ctx: Ctx):
@@ -1871,7 +1878,7 @@ def stream_binary_containers(ctx: Ctx):
     run, rng = ctx.run, ctx.rng
     ops = _binary_ops(ctx)
     per = ctx.n(12, 80)
-    for kind in ("tensorclass", "sub_td"):
+    for kind in ("tensorclass", "sub_td", "params"):
         for op in ops:
             ref = L.ref_op(op["name"])
             for _ in range(per):
@@ -1890,3 +1897,156 @@ def stream_binary_containers(ctx: Ctx):
                     if op["name"] in ("maximum", "minimum") and om == "scalar":
                         om = "t0"
                     run_binary_case(ctx, op["inplace"], ref, op["self_kind"], op["other_kind"], "inplace", om, "none", "binary_containers", container=kind)
+        # the comparison operators (`_td.py`) with the same containers as self
+        for name in L.COMPARE + L.BITWISE_CMP_STYLE:
+            for _ in range(ctx.n(8, 60)):
+                run_compare_case(ctx, name, rng.choice(["smallint", "bool"]), container=kind, site="compare_containers")
+
+
+# =========================================================================== comparisons with a lazy stack on the left
+
+_CMP_REF = {"__eq__": torch.eq, "__ne__": torch.ne, "__ge__": torch.ge, "__gt__": torch.gt, "__le__": torch.le, "__lt__": torch.lt}
+_CMP_REFLECTED = {"__eq__": "__eq__", "__ne__": "__ne__", "__ge__": "__le__", "__gt__": "__lt__", "__le__": "__ge__", "__lt__": "__gt__"}
+
+
+def stream_lazy_compare(ctx: Ctx):
+    """lazy_stack <cmp> other against Model/C09KV.lazyCmp: tensorclass operands are evaluated on their side with the REFLECTED
+    operator (tied values tell the reflection from the inverse), collections are unbound along self's stack dim"""
+    run, rng = ctx.run, ctx.rng
+    from typing import Any
+    from tensordict import LazyStackedTensorDict, is_tensorclass, lazy_stack, tensorclass
+    for it in range(ctx.n(300, 2400)):
+        name = rng.choice(list(_CMP_REF))
+        ref, rref = _CMP_REF[name], _CMP_REF[_CMP_REFLECTED[name]]
+        batch = rng.choice([(2, 3), (2, 2), (3, 2)])
+        d = rng.choice([0, 1])
+        n = batch[d]
+        paths = rng.sample(L.KEY_POOL, rng.randint(1, 4))
+
+        def tied(ps):
+            return {p: torch.tensor([rng.choice([0, 1, 1, 2]) for _ in range(int(torch.tensor(tuple(batch) + L.FEAT[p]).prod()))],
+                                    dtype=torch.int64).reshape(tuple(batch) + L.FEAT[p]) for p in ps}
+        dense_s = tied(paths)
+        mem_orders, members = [], []
+        for i in range(n):
+            o = list(paths); rng.shuffle(o)
+            mem_orders.append(L.dfs_order(o))
+            members.append(L.build_td({p: dense_s[p].select(d, i).clone() for p in paths}, o, tuple(b for j, b in enumerate(batch) if j != d)))
+        lz = lazy_stack(members, d)
+        okind = rng.choice(["tc", "tc", "dense", "dense", "dict", "lazy_same", "lazy_other", "scalar", "t0", "bad", "shape"])
+        rel = rng.choice(["same", "same", "same", "missing", "extra"]) if okind in ("dense", "lazy_same", "lazy_other") else "same"
+        o_paths = list(paths)
+        if rel == "missing" and len(o_paths) > 1:
+            o_paths = o_paths[:-1]
+        elif rel == "missing":
+            rel = "same"
+        if rel == "extra":
+            o_paths = o_paths + [rng.choice(L.EXTRA_POOL)]
+        dense_o, other, o_sx = {}, None, None
+        if okind in ("tc", "dense", "dict", "lazy_same", "lazy_other"):
+            dense_o = tied(o_paths)
+            oo = list(o_paths); rng.shuffle(oo)
+            o_dfs = L.dfs_order(oo)
+            if okind == "dense":
+                other = L.build_td(dense_o, oo, batch)
+            elif okind == "dict":
+                other = L.build_td(dense_o, oo, batch).to_dict()
+            elif okind == "tc":
+                td_o = L.build_td(dense_o, oo, batch)
+                cls = tensorclass(type("C09CmpTC", (), {"__annotations__": {k: Any for k in td_o.keys()}}))
+                other = cls._from_tensordict(td_o)
+            else:
+                dd = d if okind == "lazy_same" else 1 - d
+                oms = []
+                for i in range(batch[dd]):
+                    o2 = list(o_paths); rng.shuffle(o2)
+                    oms.append(L.build_td({p: dense_o[p].select(dd, i).clone() for p in o_paths}, o2, tuple(b for j, b in enumerate(batch) if j != dd)))
+                other = lazy_stack(oms, dd)
+            o_sx = ["tc", L.paths_sx(o_dfs)] if okind == "tc" else ["coll", [L.paths_sx(o_dfs) for _ in range(n)]]
+        elif okind == "scalar":
+            other = rng.choice([0, 1, 2]); o_sx = ["sc"]
+        elif okind == "t0":
+            other = torch.tensor(rng.choice([0, 1, 2])); o_sx = ["sc"]
+        elif okind == "bad":
+            other = "not an operand"; o_sx = ["bad"]
+        else:
+            ob = (batch[1] + 1, batch[0]) if True else batch
+            other = L.build_td({p: torch.ones(tuple(ob) + L.FEAT[p], dtype=torch.int64) for p in paths}, list(paths), ob)
+            o_sx = ["shape"]
+        case = {"op": name, "batch": list(batch), "stack_dim": d, "members": [[".".join(p) for p in mo] for mo in mem_orders],
+                "other": okind, "keys": rel, "other_keys": [".".join(p) for p in o_paths] if dense_o else None}
+        run.case(("lazy_compare", name, okind, rel, tuple(batch), d, tuple(map(tuple, mem_orders)), str({".".join(p): v.flatten().tolist() for p, v in dense_s.items()})),
+                 nontrivial=okind not in ("bad", "shape"))
+        run.count("lazy_compare.other", f"{okind}:{rel}")
+        run.count("lazy_compare.op", name)
+        has_default = name in ("__eq__", "__ne__")      # `==` / `!=` answer False / True for an operand that is not comparable
+        ans = parse_sx(ctx.drv.ask(sx("c09.lazy_cmp", [L.paths_sx(mo) for mo in mem_orders], o_sx, has_default)))
+
+        def ev(t, i):
+            if t[0] == "l":
+                side, key = int(t[1]), tuple(str(x) for x in t[2])
+                if side == 0:
+                    return dense_s[key[1:]].select(d, int(key[0]))
+                if okind == "tc":
+                    return dense_o[key]
+                return dense_o[key[1:]].select(d, int(key[0]))
+            if t[0] == "sc":
+                return other
+            args = t[1:]
+            if args and args[0][0] == "sc" and int(args[0][1]) == 93:
+                return rref(ev(args[1], i), ev(args[2], i))
+            if args and args[0][0] == "sc" and int(args[0][1]) == 94:
+                return torch.stack([ev(a, i) for a in args[1:]], d)
+            return ref(ev(args[0], i), ev(args[1], i))
+        if ans[0] == "err":
+            model = ["err", ans[1]]
+        else:
+            try:
+                if ans[1][0] == "default":
+                    model = ["ok", "default", name == "__ne__"]
+                elif ans[1][0] == "members":
+                    model = ["ok", "members", [L.canon_kv({tuple(ent[0]): ev(ent[1], i) for ent in m}) for i, m in enumerate(ans[1][1:])]]
+                else:
+                    model = ["ok", "dense", L.canon_kv({tuple(ent[0]): ev(ent[1], 0) for ent in ans[1][1]})]
+            except Exception as e:  # noqa: BLE001
+                model = ["ref-undefined", err_class(e)]
+        r = L.impl_call(lambda: getattr(lz, name)(other))
+        if r[0] == "err":
+            impl = ["err", r[1]]
+        else:
+            res = r[1]
+            if isinstance(res, bool):
+                impl = ["ok", "default", res]
+            elif is_tensorclass(res):
+                impl = ["ok", "dense", L.canon_kv(leaf_dict(res._tensordict))]
+            elif isinstance(res, LazyStackedTensorDict) and res.stack_dim == d:
+                impl = ["ok", "members", [L.canon_kv(leaf_dict(m)) for m in res.tensordicts]]
+            elif hasattr(res, "batch_size"):
+                impl = ["ok", "dense", L.canon_kv(leaf_dict(res))]
+            else:
+                impl = ["not-a-collection", type(res).__name__]
+        if model[0] != "ref-undefined":
+            run.corr("lazy_compare", case, impl, model)
+        # ---- oracle: the comparison of the stacked entries, whatever the container kinds
+        if okind == "bad" and has_default:
+            run.oracle_ok("container") if impl == ["ok", "default", name == "__ne__"] else run.oracle_fail(
+                "container", case, f"`lazy {name} <str>` should be {name == '__ne__'}, got {str(impl)[:80]}", f"lazycmp:{name}:bad:default")
+            continue
+        if okind in ("bad", "shape"):
+            run.oracle_ok("container") if impl[0] == "err" else run.oracle_fail(
+                "container", case, "an operand that cannot be compared was accepted", f"lazycmp:{name}:{okind}:no-raise")
+            continue
+        if dense_o and set(o_paths) != set(paths):
+            run.oracle_ok("container") if impl[0] == "err" else run.oracle_fail(
+                "container", case, "key sets differ but the comparison returned a result", f"lazycmp:{name}:{okind}:no-raise")
+            continue
+        want = {p: ref(dense_s[p], dense_o[p] if dense_o else other) for p in paths}
+        if impl[0] != "ok":
+            run.oracle_fail("container", case, f"raised / wrong type: {r[2] if r[0] == 'err' else impl}", f"lazycmp:{name}:{okind}:raises")
+        else:
+            res = r[1]
+            got = {p: res.get(p if len(p) > 1 else p[0]) for p in paths}
+            if L.canon_kv(got) != L.canon_kv(want):
+                run.oracle_fail("container", case, "values differ from the comparison of the stacked entries", f"lazycmp:{name}:{okind}:values")
+            else:
+                run.oracle_ok("container")
